@@ -168,7 +168,7 @@ CHECKS['C02'] = {
     'level': 'proof',
     'explanation': 'json_walk is the recursive specification of the path; the extracted get_value is proved equal to it with decreases self.',
     'trusted': COMMON_TRUST + ['serde_json::Value accessors as specified stand-ins'],
-    'unproved': ['ValueType::convert_from_json Array arm', 'serde_json::from_str'],
+    'unproved': ['serde_json::from_str'],
 }
 
 CHECKS['C13'] = {
